@@ -545,8 +545,13 @@ class Node(object):
             None
         """
         self._children.remove(child)
+        if child.parent is self:
+            child.parent = None
 
     def remove_children(self):
+        for child in self._children:
+            if child.parent is self:
+                child.parent = None
         self._children = []
 
     def remove_namespace(self, prefix: str, nsmap_id: int = None) -> None:
@@ -582,6 +587,8 @@ class Node(object):
         index = self._children.index(old_child)
         new_child.parent = self
         self._children[index] = new_child
+        if old_child.parent is self and old_child is not new_child:
+            old_child.parent = None
         if delete_old:
             Node.delete_node_instance(id=old_child.id)
 
